@@ -300,6 +300,7 @@ func TestC03(t *testing.T) {
 		nProv := rapid.IntRange(2, 6).Draw(rt, "provers")
 		unreg := rapid.IntRange(0, 1).Draw(rt, "unregistered")
 		w := newC03WorldFunded(c, W, C, nProv, unreg)
+		w.proofType = rapid.SampledFrom([]int64{0, 0, 0, 1, 2, -1}).Draw(rt, "proofType")
 		// in a quarter of the worlds the owner of the files keeps replicas of them itself, like any other prover
 		if rapid.IntRange(0, 3).Draw(rt, "ownerProves") == 0 {
 			if rapid.Bool().Draw(rt, "ownerRegistered") {
